@@ -215,7 +215,12 @@ def byte_refines(got, want):
     """every bit the reference fixes (constant, named input bit, kept chip bit) is what the driver writes; bits the
     reference leaves open ('?': arithmetic encodings not judged here) accept anything"""
     g, w = _bits_of(got), _bits_of(want)
-    return len(g) == len(w) and all(y == '?' or x == y for x, y in zip(g, w))
+    if len(g) != len(w):
+        return False
+    # a byte the table itself marks as arithmetic (some bit open): constant bits next to the open ones were derived from value ranges by
+    # the interpreter, not placed by the code - the driver's byte may leave them open too (not decided); a definite different bit is still a mismatch
+    arithmetic = '?' in w
+    return all(y == '?' or x == y or (arithmetic and x == '?' and y in ('0', '1')) for x, y in zip(g, w))
 
 
 def tx_refines(got, want):
